@@ -124,6 +124,23 @@ fn dump(v: &Ver, dom: u32) -> Vec<i64> {
    out
 }
 
+/// `is_empty()` of every read view, in the order f, i0, i1, n: generated code skips a rule when a body relation reports empty,
+/// so `true` must mean "definitely empty" (2 = the call panicked)
+fn empties(v: &Ver) -> Vec<i64> {
+   fn flag(f: impl FnOnce() -> bool) -> i64 {
+      match std::panic::catch_unwind(std::panic::AssertUnwindSafe(f)) {
+         Ok(b) => b as i64,
+         Err(_) => 2,
+      }
+   }
+   vec![
+      flag(|| RelIndexRead::is_empty(&v.f.to_rel_index(&v.c))),
+      flag(|| RelIndexRead::is_empty(&v.i0.to_rel_index(&v.c))),
+      flag(|| RelIndexRead::is_empty(&v.i1.to_rel_index(&v.c))),
+      flag(|| RelIndexRead::is_empty(&v.n.to_rel_index(&v.c))),
+   ]
+}
+
 struct St {
    new: Ver,
    delta: Ver,
@@ -218,7 +235,7 @@ pub fn run(dom: u32, ops: &[&str], steps: &mut Vec<String>) {
                "M" => merge_common(&mut s),
                _ => restart(&mut s),
             }
-            steps.push(format!("D {} T {}", join(&dump(&s.delta, dom)), join(&dump(&s.total, dom))));
+            steps.push(format!("D {} T {} E {} {}", join(&dump(&s.delta, dom)), join(&dump(&s.total, dom)), join(&empties(&s.delta)), join(&empties(&s.total))));
          },
          _ => panic!("bad op {}", op),
       }
